@@ -85,8 +85,25 @@ def gen_pairs(rng, mode, n_schemas, extra_opts=None):
             stats[k] = stats.get(k, 0) + c
         inh = gen.Inhabit(rng, S, cbor)
         root = S.rules[0][2]
-        for j in range(4):
+        first = None
+        for j in range(6):
+            if j >= 4:
+                # targeted near-misses: the empty container and a single deletion from the first inhabitant
+                if first is None or first[0] not in ("map", "arr") or not first[1]:
+                    break
+                if j == 4:
+                    v = (first[0], [])
+                else:
+                    k = rng.randrange(len(first[1]))
+                    v = (first[0], first[1][:k] + first[1][k + 1:])
+                if (not cbor and not ast.is_json_value(v)) or (cbor and not ast.is_cbor_value(v)):
+                    continue
+                pairs.append((S, v))
+                classes.append("near-miss-deletion")
+                continue
             v = inh.ty(root)
+            if first is None:
+                first = v
             c = rng.random()
             if c < 0.4:
                 cls = "inhabitant"
@@ -140,6 +157,28 @@ def run(prop, prop_file, mode, tier, seed):
         model = runner.model(orc, pairs, False)
         model_alt = runner.model(orc, pairs, True)
     phases["run_impl_and_model"] = round(time.time() - t0, 1); t0 = time.time()
+    large_n = 0
+    if cbor:
+        # containers beyond the decoder's pre-allocation size, definite vs indefinite encoding of the same item:
+        # the verdict must not depend on the encoding and must be the evident one
+        big = []
+        for n in (4097, 5000):
+            elems = b"\x00" * n
+            for body, tail, want in ((elems, b"", ("T", "F")), (elems, b"\x61a", ("F", "T"))):
+                cnt = n + (1 if tail else 0)
+                d_def = b"\x99" + cnt.to_bytes(2, "big") + body + tail
+                d_ind = b"\x9f" + body + tail + b"\xff"
+                for sch, w in (("r0 = [* uint]\n", want[0]), ("r0 = [* uint, tstr]\n", want[1])):
+                    big.append((sch, d_def, d_ind, w))
+            pairs_b = b"\x00\x01" * n
+            big.append(("r0 = {* uint => uint}\n", b"\xb9" + n.to_bytes(2, "big") + pairs_b, b"\xbf" + pairs_b + b"\xff", None))
+        outs = runner.impl_cbor_bytes(drv, [(b[0], b[1]) for b in big] + [(b[0], b[2]) for b in big])
+        for i, b in enumerate(big):
+            a1, a2 = outs[i], outs[len(big) + i]
+            large_n += 2
+            if runner.verdict_of(a1) != runner.verdict_of(a2) or (b[3] is not None and runner.verdict_of(a1) != b[3]):
+                res.violation("cbor validation of a %d-byte container against %s: definite encoding %s, indefinite encoding %s, expected %s" % (len(b[1]), b[0].strip(), a1[:80], a2[:80], b[3]),
+                              {"mode": "cbor", "schema": b[0], "doc": b[1].hex(), "doc_indefinite": b[2].hex(), "doc_sexp": "(large)", "schema_sexp": "", "impl": a1, "model": b[3]})
     hist, split, skipped = {}, {"T": 0, "F": 0}, {"int-float-undecided": 0, "model-undecided": 0, "schema-rejected": 0}
     known_hits, distinct = {}, set()
     kf_by_id = {k["id"]: k for k in common.known_findings(prop)}
@@ -201,7 +240,7 @@ def run(prop, prop_file, mode, tier, seed):
     for (S, v), a, m in list(zip(pairs, impl, model))[:5]:
         samples.append({"schema": S.cddl(), "doc": ast.val_json(v) if not cbor else ast.val_cbor(v).hex(), "impl": a[:60], "model": m})
     res.coverage.update({
-        "evaluations": len(pairs) + (n_gen if cbor else 0),
+        "evaluations": len(pairs) + (n_gen if cbor else 0) + large_n,
         "distinct_nontrivial": len(distinct),
         "rule": "generated (schema, document) pairs: schemas of the core fragment (85%% in the shape both validators handle, 15%% unrestricted), "
                 "documents valid by construction / near-miss mutants / unrelated values; plus the exhaustive small scope "
